@@ -2,7 +2,7 @@
    Property theorems only; proofs in proofs/BinOpTreeProof.v, EvalProof.v, RadixProof.v. *)
 From DTR Require Import Prelude I64 Ast FramedMap Lexer Parser Grammar Eval.
 From DTR Require Import GeneratedTables.
-From DTR.proofs Require Import I64Facts BinOpTreeProof EvalProof RadixProof TablesProof LexerProof ParserProof GrammarProof ExprRoundTrip.
+From DTR.proofs Require Import I64Facts BinOpTreeProof EvalProof RadixProof TablesProof LexerProof ParserProof GrammarProof ExprRoundTrip EvalOrderProof.
 Local Open Scope Z_scope.
 
 (* ---- precedence and associativity: the tree the parser builds by folding BinOpTree::add over
@@ -139,6 +139,26 @@ Theorem C08_ite_lazy_else : forall G c t a a' b rng rng1,
   eval G c (EFunc name_ite [t; a; b]) rng = eval G c (EFunc name_ite [t; a'; b]) rng.
 Proof. exact ite_lazy_else. Qed.
 
+(* ---- evaluation ORDER: which sub-expressions are evaluated, in which order, how often (an eager, repeated, skipped or
+   re-ordered evaluation contradicts one of these): a binary operator evaluates its left operand first ... *)
+Theorem C08_left_operand_first : forall (G : gen) c op l r rng res rng1,
+  eval G c l rng = (res, rng1) -> (forall v, res <> Ok v) ->
+  eval G c (EBin op l r) rng = (res, rng1).
+Proof. exact eval_bin_left_fails. Qed.
+
+(* ... then - only if the left one has a value - the right operand, once, with the generator history the left one left
+   behind, and only then applies the operator: there is no short circuit, not even for 0 & e or 0 * e *)
+Theorem C08_then_the_right_operand_no_short_circuit : forall (G : gen) c op l r rng lv rng1 res rng2,
+  eval G c l rng = (Ok lv, rng1) -> eval G c r rng1 = (res, rng2) ->
+  eval G c (EBin op l r) rng =
+  (match res with Ok rv => binop_eval op lv rv | other => other end, rng2).
+Proof. exact eval_bin_left_then_right. Qed.
+
+Theorem C08_unary_operand_once : forall (G : gen) c op a rng res rng1,
+  eval G c a rng = (res, rng1) ->
+  eval G c (EUn op a) rng = (match res with Ok v => Ok (unop_eval op v) | other => other end, rng1).
+Proof. exact eval_un_once. Qed.
+
 (* ---- integer literals: positional value in radix 10 / 16 (0x, 0X, either letter case) /
    2 (0b, 0B) / 8 (leading 0); a literal that does not fit in 63 bits is an error *)
 Theorem C08_radix_value : forall radix casing ds, (2 <= radix <= 36)%N -> ds <> [] -> length casing = length ds ->
@@ -206,3 +226,5 @@ Print Assumptions C08_unparse_parse.
 Print Assumptions C08_pretty_printer_round_trip.
 Print Assumptions C08_eval_is_64_bit.
 Print Assumptions C08_literal_hex.
+Print Assumptions C08_left_operand_first.
+Print Assumptions C08_then_the_right_operand_no_short_circuit.
